@@ -82,9 +82,9 @@ def spaces(tier, variant, seed):
         size, order = blk
         for endian in (-1, 0, 1):
             for nails in range(0, 8 * size):
-                if quick and size > 4 and nails not in (0, 1, 7, 8, 9, 8 * size - 9, 8 * size - 8, 8 * size - 1, 4 * size, 8 * size - 2):
+                if quick and size > 8 and nails not in (0, 1, 7, 8, 9, 8 * size - 9, 8 * size - 8, 8 * size - 1, 4 * size, 8 * size - 2):
                     continue
-                for mis in (range(8) if (size <= 4 or not quick) else (0, 1, 7)):
+                for mis in (range(8) if (size <= 8 or not quick) else (0, 1, 7)):
                     for vi in range(len(VALS)):
                         yield (size, order, endian, nails, mis, vi)
 
@@ -148,7 +148,7 @@ def spaces(tier, variant, seed):
         return (size, order, endian, nails % 8, nails // 8, mis, cnt if cnt < 4 else 4)
 
     sp.append(Space("export_import", [(size, order) for size in range(1, 17) for order in (1, -1)], ex_cases, ex_one,
-                    "mpz_export/mpz_import: size 1..16 x order x endian x nails x misalignment x %d values (whole space for size<=4, nail/misalignment edges above in quick)" % len(VALS)))
+                    "mpz_export/mpz_import: size 1..16 x order x endian x nails x misalignment x %d values (whole space for size<=8, nail/misalignment edges above in quick; everything in thorough)" % len(VALS)))
 
     # ---------------- (b)+(c) raw format with faults ----------------
     def raw_bytes(v):
